@@ -20,6 +20,7 @@ Wire form of one op (also what Driver/H_c03.lean decodes):
   ["add_data", n, rat]                 ["update_data", n, rat]      ["remove_data", n]
   queries: ["q", "init"] ["q", "pvals"] ["q", "classes"] ["q", "args", VALS|null, t] ["q", "argsro", VALS|null, t]
            ["q", "rhs", VALS|null, t] ["q", "fluxes", VALS|null, t] ["q", "call", t, VALS]
+           ["q", "stoich", VALS|null, t] ["q", "stoichvar", name, VALS|null, t]
   VALS = [rat, ...] cycled over the model's current variables in declaration order.
 """
 from __future__ import annotations
@@ -131,6 +132,9 @@ def run_query(m, q):
             return {"ok": sorted([k, C.num(v)] for k, v in m.get_parameter_values().items())}
         if kind == "classes":
             return {"ok": [list(m.get_derived_parameter_names()), list(m.get_derived_variable_names())]}
+        if kind == "stoichvar":
+            d = m.get_stoichiometries_of_variable(q[2], cur_state(m, q[3]), F(q[4]))
+            return {"ok": sorted([k, C.num(v)] for k, v in d.items())}
         if kind == "call":
             names = m.get_variable_names()
             xs = [F(q[3][i % len(q[3])]) for i in range(len(names))]
@@ -145,6 +149,9 @@ def run_query(m, q):
         if kind == "fluxes":
             s = m.get_fluxes(st, t)
             return {"ok": [[k, C.num(v)] for k, v in s.items()]}
+        if kind == "stoich":
+            df = m.get_stoichiometries(st, t)
+            return {"ok": C.canon_stoich({c: {r: C.num(df.loc[c, r]) for r in df.columns} for c in df.index})}
         if kind == "rhs":
             s = m.get_right_hand_side(st, t)
             return {"ok": [[k, C.num(v)] for k, v in s.items()]}
